@@ -1,6 +1,7 @@
 package props
 
 import (
+	"bytes"
 	"bufio"
 	"encoding/json"
 	"fmt"
@@ -28,7 +29,7 @@ var c07Faults = []struct{ Point, Kind string }{
 	{"fetch", "404"}, {"fetch", "500x3"}, {"fetch", "500x2-then-ok"}, {"fetch", "not-http"}, {"fetch", "no-start-time"}, {"fetch", "truncated-body"}, {"fetch", "reset-mid-body"},
 	{"backend", "refused"},
 	{"backend", "garbage-status"}, {"backend", "huge-headers"}, {"backend", "close-before-headers"}, {"backend", "rst"},
-	{"backend", "short-content-length"}, {"backend", "rst-mid-chunk"}, {"backend", "bad-chunk-size"}, {"backend", "one-byte-then-trailers"}, {"backend", "lying-content-encoding"}, {"backend", "malformed-set-cookie"},
+	{"backend", "short-content-length"}, {"backend", "rst-mid-chunk"}, {"backend", "bad-chunk-size"}, {"backend", "one-byte-then-trailers"}, {"backend", "lying-content-encoding"}, {"backend", "malformed-set-cookie"}, {"backend", "latin1-html-head-at-chunk-end"},
 	{"backend-h2", "abort-before-headers"}, {"backend-h2", "abort-mid-body"}, {"backend-h2", "huge-headers"}, {"backend-h2", "slow-then-abort"},
 	{"upload", "500x3"}, {"upload", "404"}, {"upload", "reset-at-0"}, {"upload", "reset-at-4096"}, {"upload", "reset-at-end"}, {"upload", "stall"},
 	{"shim", "data-malformed-json"}, {"shim", "data-unknown-session"}, {"shim", "poll-unknown-session"}, {"shim", "close-unknown-session"}, {"shim", "open-backend-refuses-upgrade"}, {"shim", "open-slow-failure-overlapping-opens"}, {"shim", "malformed-data-on-live-session"}, {"shim", "backend-closes-session-normally"}, {"shim", "backend-closes-session-going-away"}, {"shim", "open-malformed-url"}, {"shim", "data-wrong-shape"}, {"shim", "backend-stalls-then-closes-during-client-burst"}, {"shim", "backend-stalls-then-resets-during-client-burst"},
@@ -122,6 +123,14 @@ func c07Lane_(r *core.Run, agentBin string, md *fakes.Metadata, li int, ln c07La
 			conn.Write([]byte("HTTP/1.1 200 OK\r\nTransfer-Encoding: chunked\r\n\r\nzz\r\nabc\r\n0\r\n\r\n"))
 		case "one-byte-then-trailers":
 			conn.Write([]byte("HTTP/1.1 200 OK\r\nTrailer: X-A, X-B\r\nTransfer-Encoding: chunked\r\n\r\n1\r\nx\r\n0\r\nX-A: 1\r\nX-B: 2\r\n\r\n"))
+			return true, true
+		case "latin1-html-head-at-chunk-end":
+			// an HTML page in an 8-bit encoding (bytes that are not valid UTF-8 before <head>) whose first piece on the wire ends right after the tag
+			first := "<html lang=fr><!-- page g\xe9n\xe9r\xe9e \xe0 la vol\xe9e \xfc\xf6\xe4\xdf \xe9\xe9\xe9\xe9\xe9\xe9\xe9\xe9\xe9\xe9\xe9\xe9 --><head>"
+			rest := "<title>t</title></head><body>caf\xe9</body></html>"
+			conn.Write([]byte(fmt.Sprintf("HTTP/1.1 200 OK\r\nContent-Type: text/html; charset=iso-8859-1\r\nTransfer-Encoding: chunked\r\n\r\n%x\r\n%s\r\n", len(first), first)))
+			time.Sleep(40 * time.Millisecond)
+			conn.Write([]byte(fmt.Sprintf("%x\r\n%s\r\n0\r\n\r\n", len(rest), rest)))
 			return true, true
 		case "malformed-set-cookie":
 			conn.Write([]byte("HTTP/1.1 200 OK\r\nSet-Cookie: =oops; Path=/\r\nSet-Cookie: ; HttpOnly\r\nSet-Cookie: a b=c\r\nSet-Cookie: \r\nSet-Cookie: name-only\r\n" +
@@ -764,6 +773,25 @@ func c07Refused(r *core.Run, agentBin string, md *fakes.Metadata, ln c07Lane, li
 		r.Violate("C07:agent-terminated:"+ln.name+":backend/refused", "the agent exited after a request to an unreachable backend: "+core.Trunc(tail(agent.Log(), 800), 800), nil, nil)
 	} else if px.Lists() == n {
 		r.Violate("C07:agent-stopped-polling:"+ln.name+":backend/refused", "the agent made no pending-list call for 10 s after a request to an unreachable backend", nil, nil)
+	}
+	// the backend comes (back) up: requests issued afterwards are served normally, however closely they follow each other
+	if agent.Alive() && !ln.h2 { // (the token backend speaks HTTP/1.1 only)
+		if tb, err := newTokBackendOn(closed); err == nil {
+			served := 0
+			for k := 0; k < 5; k++ {
+				tok := fmt.Sprintf("back-%d-%d-%d", li, inj, k)
+				px.Enqueue(tok, tokRequest("GET", tok, 10, 0, "c07.example", nil, nil), "")
+				want := tokResponseFor(tok, 10)
+				if u2, ok2 := px.Wait(tok, 10*time.Second); ok2 && u2.Resp != nil && u2.Resp.Status == want.Status && bytes.Equal(u2.Resp.Body, want.Body) {
+					served++ // (status and body: the session and banner wrappers of the full configurations legitimately touch headers)
+				}
+				time.Sleep(250 * time.Millisecond)
+			}
+			tb.Srv.Close()
+			if served < 4 {
+				r.Violate("C07:requests-after-backend-came-back-not-served:"+ln.name, fmt.Sprintf("config %s: after one request had met an unreachable backend and the backend then came up, only %d of 5 later requests (250 ms apart) were served", ln.name, served), nil, nil)
+			}
+		}
 	}
 	for _, ex := range core.CrashMarkers(agent.LogPath) {
 		r.Violate(core.CrashSignature(ex), "agent crashed: "+ex, nil, nil)
